@@ -21,6 +21,11 @@ echo "== demo with the change: $*" >>"$log"
 echo "== check $prop quick with the change" >>"$log"
 /verif/check "$prop" --tier quick > "$out/check_with_change.log" 2>&1; chk=$?
 grep -E "^VIOLATION|^KNOWN-FINDING|^SUMMARY|MACHINERY" "$out/check_with_change.log" | cut -c1-300 >>"$log"
+# keep what the check wrote about the mutant with the seed, restore the committed evidence/replays of the real tree
+rm -rf "$out/replays_with_change"; mkdir -p "$out/replays_with_change"
+cp -r "/verif/replays/$prop/." "$out/replays_with_change/" 2>/dev/null
+cp "/verif/evidence/$prop.json" "$out/evidence_with_change.json" 2>/dev/null
+git -C /verif checkout -- evidence replays 2>/dev/null; git -C /verif clean -fdq replays evidence 2>/dev/null
 git -C /repo checkout -- .
 echo "== demo without the change" >>"$log"
 ( cd /repo && "$@" ) >>"$log" 2>&1; demo_without=$?
